@@ -95,6 +95,9 @@ def run_program(case, inp, geom, jnp):
                     if not np.allclose(sq.ravel(), want["val"], rtol=1e-5, atol=1e-5):
                         return side, si, "norm: values"
                     r = geom.GeometricImage(jnp.asarray(np.rint(sq).astype(np.float32)), nrm.parity, nrm.D, nrm.is_torus)
+                elif op == "SpatialSum":     # no library method: the numerator of the spatial mean the layers take (jnp.mean over the pixel axes)
+                    tot = jnp.sum(regs[i].data, axis=tuple(range(D)), keepdims=True)
+                    r = geom.GeometricImage(jnp.broadcast_to(tot, regs[i].data.shape), regs[i].parity, regs[i].D, regs[i].is_torus)
                 elif op == "Convolve":
                     kw = convlib.code_args(cfg, 0)
                     r = convlib.quiet(regs[i].convolve_with, filt, kw["stride"], None if cfg["mode"] == "SAME" else kw["padding"],
@@ -197,7 +200,7 @@ def main(tier):
         all_cases.append((inst["inp"], cs))
         for c in cs:
             ops_seen.update(s["op"] for s in c["hist"])
-    need = {"Add", "Sub", "Scale", "TProd", "Transpose", "Contract", "MultiContract", "LeviCivita", "NormSq", "Convolve"}
+    need = {"Add", "Sub", "Scale", "TProd", "Transpose", "Contract", "MultiContract", "LeviCivita", "NormSq", "Convolve", "SpatialSum"}
     if not need <= ops_seen:
         raise RuntimeError("vacuity: operations never exercised: %s" % sorted(need - ops_seen))
     chk.exhaustive = True
